@@ -14,8 +14,10 @@ import (
 	"context"
 	"encoding/json"
 	"fmt"
+	"k8s.io/apimachinery/pkg/types"
 	"math"
 	"math/rand"
+	"os"
 	"strings"
 	"time"
 
@@ -393,8 +395,27 @@ func runCluster(r *mon.Report, idx int, rng *rand.Rand) {
 		n := []string{"2", "3", "3"}[rng.Intn(3)]
 		cfg.Budgets = func(*rand.Rand) []v1.Budget { return []v1.Budget{{Nodes: n}} }
 	}
+	// fourth directed family: one pool of many one-pod nodes that all end up empty under a small count budget, so that
+	// every emptiness command takes several candidates and leaves further empty nodes for the next rounds; a candidate
+	// vanishes while the command is being started (see the PostWrite hook below)
+	emptyVanish := !directed && !window && !multi && rng.Intn(5) == 0
+	if emptyVanish {
+		cfg.Scenario.MinPools, cfg.Scenario.MaxPools = 1, 1
+		cfg.OnePodPerNode = true
+		cfg.Rounds = 3
+		cfg.PodsPerRound = 4 + rng.Intn(3)
+		cfg.PDeletePod = 1.0
+		cfg.PDrift, cfg.PNotReady, cfg.PUninitialized = 0, 0, 0
+		cfg.ConsolidateAfter = []string{"0s"}
+		cfg.Policies = []v1.ConsolidationPolicy{v1.ConsolidationPolicyWhenEmptyOrUnderutilized, v1.ConsolidationPolicyWhenEmpty}
+		n := []string{"2", "3", "4"}[rng.Intn(3)]
+		cfg.Budgets = func(*rand.Rand) []v1.Budget { return []v1.Budget{{Nodes: n}} }
+	}
 	d := common.BuildDisruption(rng, cfg)
 	e := d.Env
+	if emptyVanish {
+		r.Inc("cluster_cases_with_many_empty_nodes_a_count_budget_and_a_vanishing_candidate")
+	}
 	if multi {
 		r.Inc("cluster_cases_with_many_small_nodes_and_a_count_budget")
 	}
@@ -440,13 +461,68 @@ func runCluster(r *mon.Report, idx int, rng *rand.Rand) {
 			_ = e.SyncState()
 		}
 	})
+	// (many-small-nodes family) a candidate of a command disappears on its own — Node and NodeClaim gone, cluster
+	// state told — right after the queue tainted it, i.e. while StartCommand is still working through the command. The
+	// other candidates of the command are in flight all the same and must keep counting against the budget.
+	vanishArmed, vanishedNode, vanishes := (multi && rng.Intn(2) == 0) || emptyVanish, "", 0
+	e.API.PostWrite = append(e.API.PostWrite, func(ev *world.Event) {
+		if !vanishArmed || ev.Kind != "Node" {
+			return
+		}
+		// (StartCommand taints its candidates from parallel workers: the write that ADDS the disruption taint is the mark)
+		inStart := false
+		for _, f := range ev.Stack {
+			inStart = inStart || strings.Contains(f, "RequireNoScheduleTaint")
+		}
+		n := &corev1.Node{}
+		if !inStart || e.API.Raw.Get(context.Background(), types.NamespacedName{Name: ev.Key}, n) != nil {
+			return
+		}
+		tainted := false
+		for _, t := range n.Spec.Taints {
+			tainted = tainted || t.Key == v1.DisruptedTaintKey
+		}
+		if !tainted {
+			return
+		}
+		vanishArmed, vanishedNode = false, n.Name
+		ncs := &v1.NodeClaimList{}
+		_ = e.API.Raw.List(context.Background(), ncs)
+		for i := range ncs.Items {
+			if nc := &ncs.Items[i]; nc.Status.ProviderID == n.Spec.ProviderID && n.Spec.ProviderID != "" {
+				e.Provider.Vanish(nc.Status.ProviderID)
+				nc.Finalizers = nil
+				_ = e.API.Raw.Update(context.Background(), nc)
+				_ = e.API.Raw.Delete(context.Background(), nc)
+			}
+		}
+		n.Finalizers = nil
+		_ = e.API.Raw.Update(context.Background(), n)
+		_ = e.API.Raw.Delete(context.Background(), n)
+		_ = e.SyncState()
+	})
 	inflight := map[string]bool{} // node names that are candidates of commands left in flight
 	rounds := 3 + rng.Intn(4)
 	for round := 0; round < rounds; round++ {
 		churned = false
 		tStart := e.Clock.Now()
+		vanishedNode = ""
 		cmds, err, panicked, pv, stack := d.Round()
 		tEnd := e.Clock.Now()
+		if vanishedNode != "" {
+			r.Inc("candidates_vanished_during_StartCommand")
+			several := false
+			for _, cmd := range cmds {
+				for _, c := range cmd.Candidates {
+					several = several || (c.Name() == vanishedNode && len(cmd.Candidates) >= 2 && cmd.Candidates[len(cmd.Candidates)-1].Name() != vanishedNode)
+				}
+			}
+			if several {
+				r.Inc("non_last_candidate_of_a_multi_candidate_command_vanished_during_StartCommand")
+			} else if vanishes++; vanishes < 3 {
+				vanishArmed = true // a single-candidate command: try again with a later one
+			}
+		}
 		if panicked {
 			r.Violate("panic-in-disruption-reconcile", fmt.Sprintf("%v", pv), caseDesc, stack)
 			return
@@ -495,6 +571,9 @@ func runCluster(r *mon.Report, idx int, rng *rand.Rand) {
 				}
 				r.Inc("budget_judgements")
 				used := len(sel) + len(disrupting)
+				if os.Getenv("C05_DEBUG") != "" && (multi || emptyVanish) {
+					fmt.Fprintf(os.Stderr, "DEBUG case %d round %d pool %s sel=%v already=%v allowed=%d total=%d vanished=%q\n", idx, round, pool, keys(sel), keys(disrupting), maxAllowed, total, vanishedNode)
+				}
 				r.Sig("cluster|%s|cmds=%d|sel=%d|already=%d|allowed=%s", reason, min(len(cmds), 2), min(len(sel), 3), min(len(disrupting), 2), bucket(maxAllowed))
 				if used > maxAllowed {
 					r.Violate("budget-exceeded:"+reason, fmt.Sprintf("pool %s reason %s: %d newly selected + %d already not-ready/deleting/in-flight = %d > %d allowed (of %d initialized nodes) at every instant of the reconcile interval", pool, reason, len(sel), len(disrupting), used, maxAllowed, total),
